@@ -12,6 +12,7 @@
 //	CoilsToBytes, isBitSet (stage 4)
 //
 // -out3 : registers.go (stage 5)
+// -out4 : builder.go / splitter.go of package modbus (stage 6; needs the definitions of -out3)
 // A stage whose flag is absent is not translated (and cannot make the exit status 3).
 //
 // Standard library only (go/parser, go/ast, go/token, go/constant).  Deterministic output.
@@ -36,6 +37,7 @@ import (
 	"flag"
 	"fmt"
 	"go/ast"
+	"go/token"
 	"os"
 	"path/filepath"
 	"sort"
@@ -44,6 +46,7 @@ import (
 
 type translator struct {
 	p     *pkg
+	ext   *translator // the translator of the imported package (functions with funcDecl.foreign set)
 	done  map[string]*fsig
 	order []*fsig
 	stack map[string]bool
@@ -53,6 +56,9 @@ type translator struct {
 // constructors, CRC16, parsers), 2 = PacketGen2.v (encoders, CoilsToBytes, isBitSet),
 // 3 = RegistersGen.v (registers.go).
 func fileOf(fd *funcDecl) int {
+	if fd.pkgName == "modbus" {
+		return 4
+	}
 	if fd.file == "registers.go" {
 		return 3
 	}
@@ -74,6 +80,7 @@ func main() {
 	out := flag.String("out", "", "output .v file for stages 1-3 (default: stdout)")
 	out2 := flag.String("out2", "", "output .v file for the encoders (stage 4); not translated if empty")
 	out3 := flag.String("out3", "", "output .v file for registers.go (stage 5); not translated if empty")
+	out4 := flag.String("out4", "", "output .v file for builder.go / splitter.go of package modbus (stage 6); not translated if empty")
 	flag.Parse()
 
 	p, err := loadPkg(filepath.Join(*repo, "packet"))
@@ -131,6 +138,22 @@ func main() {
 			}
 		}
 	}
+	// stage 6: package modbus, with package packet merged in for its types, constants and methods
+	var tr4 *translator
+	if *out4 != "" {
+		want[3] = true // its callees in registers.go are needed (their definitions are only WRITTEN with -out3)
+		if err := root.importPkg("packet", p); err != nil {
+			fmt.Fprintln(os.Stderr, "gotrans:", err)
+			os.Exit(1)
+		}
+		tr4 = &translator{p: root, ext: tr, done: map[string]*fsig{}, stack: map[string]bool{}}
+		for _, fd := range root.funcL {
+			if fd.foreign == nil && rootTargets[fd.name] {
+				tr4.translate(fd, "full")
+			}
+		}
+		want[3] = *out3 != ""
+	}
 	failed := 0
 	bodies := map[int]*strings.Builder{1: &b, 2: {}, 3: {}}
 	bodies[2].WriteString(header2)
@@ -146,6 +169,29 @@ func main() {
 		if s.untranslated != "" {
 			failed++
 			fmt.Fprintf(os.Stderr, "gotrans: %s: UNTRANSLATED: %s\n", s.goName, s.untranslated)
+		}
+	}
+	if tr4 != nil {
+		var sb strings.Builder
+		sb.WriteString(header4)
+		n, bad := 0, 0
+		for _, s := range tr4.order {
+			sb.WriteString("\n" + s.text)
+			n++
+			if s.untranslated != "" {
+				bad++
+				failed++
+				fmt.Fprintf(os.Stderr, "gotrans: %s: UNTRANSLATED: %s\n", s.goName, s.untranslated)
+			}
+		}
+		fmt.Fprintf(&sb, "\n(* ---------- summary ---------- *)\n(* %d definitions, %d untranslated *)\n", n, bad)
+		if err := os.MkdirAll(filepath.Dir(*out4), 0o755); err != nil {
+			fmt.Fprintln(os.Stderr, "gotrans:", err)
+			os.Exit(1)
+		}
+		if err := os.WriteFile(*out4, []byte(sb.String()), 0o644); err != nil {
+			fmt.Fprintln(os.Stderr, "gotrans:", err)
+			os.Exit(1)
 		}
 	}
 	for file, path := range map[int]string{1: *out, 2: *out2, 3: *out3} {
@@ -244,6 +290,40 @@ const header2 = `(* GENERATED by /verif/gotrans (-out2) from /repo/packet/*.go -
      boolean parameter r_<field>_isnil of the methods of that struct. *)
 From Coq Require Import String.
 Require Import MB.GoSem MB.CrcModel MB.PacketModel MB.GenPrelude MB.GenPrelude2 MB.gen.PacketGen.
+Open Scope N_scope.
+`
+
+const header4 = `(* GENERATED by /verif/gotrans (-out4) from /repo/builder.go and /repo/splitter.go (package modbus)
+   -- do not edit.  Regenerated on every check; coq/Properties/Gen_Builder.v proves that every
+   definition below equals the hand-written model coq/BuilderModel.v.
+
+   In addition to the assumptions in the headers of PacketGen.v / PacketGen2.v / RegistersGen.v:
+   * the structs Field, builderSlot, builderSlotGroup, requestBatch are RECORDS of BuilderSpec /
+     BuilderModel (gotrans/tables.go: recordTable): x.F is the projection, T{..} the constructor, an
+     assignment to a field of a local variable rebuilds the record.  Field.Name is carried as a
+     number by the model: no translated function looks at it.  requestBatch.IsForCoils has no
+     counterpart and must keep its zero value.  A string is the list of its bytes; s == "" is
+     length 0.
+   * []T for such a struct is list T: l[i] / l[i] = v / len are lget / lset / llen, make([]T, 0) is [],
+     append(l, x) is l ++ [x], append(l, m...) is l ++ m.  That append may write into spare capacity
+     shared with another slice header is not represented (no translated function keeps the old
+     header in use).  min(a, b) is N.min.
+   * a method with a pointer receiver that assigns to the receiver (builderSlotGroup.AddField)
+     yields the new receiver; g.slots[i] = slot is the list with element i replaced.
+   * for i, x := range l { if c { return v } } is find_first (first index, in order).
+     for _, x := range l { body } over a list of records is fold_left on the variables body assigns.
+   * sort.Sort(slotsSorter(x)), where slotsSorter.Less is a[i].address < a[j].address, replaces x by
+     sort_by (fun a b => s_addr a <? s_addr b) x (insertion sort).  TRUSTED: sort.Sort sorts by
+     Less; for pairwise different keys (AddField merges equal addresses) the result does not
+     depend on the algorithm.  That the slots of the caller's group are sorted in place is not
+     represented.
+   * a parameter of type *packet.Registers is its four fields (as in RegistersGen.v); a result of
+     type interface{} is a RegistersSpec.aval according to the static Go type of the returned
+     value: bool = VBool, integers and float bit patterns = VInt, string = VBytes.
+   * packet.C is the constant C of package packet. *)
+From Coq Require Import String.
+Require Import MB.GoSem MB.CrcModel MB.PacketModel MB.RegistersSpec MB.RegistersModel MB.BuilderSpec MB.BuilderModel.
+Require Import MB.GenPrelude MB.GenPrelude2 MB.GenPrelude3 MB.GenPrelude4 MB.gen.RegistersGen.
 Open Scope N_scope.
 `
 
@@ -403,6 +483,16 @@ func coqType(t *typ, isSlice bool) string {
 		return "list N" // only as a RESULT: the bytes of the Go string
 	case kArray:
 		return "list N"
+	case kAny:
+		return "aval"
+	case kStruct, kPtr:
+		if r, ok := recordOf(t); ok {
+			return r.coqType
+		}
+	case kList:
+		if et := coqType(t.elem, false); et != "" {
+			return "list " + et
+		}
 	}
 	return ""
 }
@@ -424,6 +514,9 @@ func canPanic(body *ast.BlockStmt) bool {
 }
 
 func (tr *translator) translate(fd *funcDecl, mode string) *fsig {
+	if fd.foreign != nil && tr.ext != nil {
+		return tr.ext.translate(fd, mode)
+	}
 	key := fd.name + "/" + mode
 	if s, ok := tr.done[key]; ok {
 		return s
@@ -462,7 +555,24 @@ func (tr *translator) translate(fd *funcDecl, mode string) *fsig {
 			if len(fd.decl.Recv.List[0].Names) == 1 {
 				rname = fd.decl.Recv.List[0].Names[0].Name
 			}
-			rv := tr.recvValue(f, fd.recv, sig)
+			var rv *val
+			if rec, isRec := recordTable[fd.recv]; isRec {
+				// a struct held as a record: the receiver is one parameter
+				_ = rec
+				rt := &typ{k: kStruct, name: fd.recv}
+				pr := param{name: rname, coq: f.fresh(rname), t: rt}
+				sig.recvFields = append(sig.recvFields, pr)
+				rv = &val{t: rt, term: pr.coq}
+				sig.recvName = rname
+			} else if nt, isNamed := p.named[fd.recv]; isNamed && nt.k == kList {
+				lt := *nt
+				lt.name = fd.recv
+				pr := param{name: rname, coq: f.fresh(rname), t: &lt}
+				sig.recvFields = append(sig.recvFields, pr)
+				rv = &val{t: &lt, term: pr.coq}
+			} else {
+				rv = tr.recvValue(f, fd.recv, sig)
+			}
 			if rname != "" && rname != "_" {
 				f.env.vars[rname] = rv
 			}
@@ -483,6 +593,23 @@ func (tr *translator) translate(fd *funcDecl, mode string) *fsig {
 		}
 		for _, fl := range fd.decl.Type.Params.List {
 			t := p.typeOfExpr(fl.Type)
+			if sn := structName(t); sn != "" {
+				if _, isRec := recordTable[sn]; !isRec {
+					// a struct of the flattened kind (packet.Registers): its fields become parameters
+					for _, nm := range fl.Names {
+						sub := &fsig{}
+						sv := tr.recvValue(f, sn, sub)
+						for i := range sub.recvFields {
+							sub.recvFields[i].coq = "v_" + nm.Name + "_" + sub.recvFields[i].name
+						}
+						tr.renameLeaves(sv, "v_"+nm.Name+"_")
+						sig.recvFields = append(sig.recvFields, sub.recvFields...)
+						sig.expanded = append(sig.expanded, nm.Name)
+						f.env.vars[nm.Name] = sv
+					}
+					continue
+				}
+			}
 			for _, nm := range fl.Names {
 				pr := param{name: nm.Name, coq: f.fresh(nm.Name), t: t}
 				if written[nm.Name] {
@@ -520,6 +647,9 @@ func (tr *translator) translate(fd *funcDecl, mode string) *fsig {
 		nres := len(sig.results)
 		lastErr := nres > 0 && sig.results[nres-1].k == kError
 		switch {
+		case sig.recvName != "" && nres == 0 && mutatesReceiver(fd, sig.recvName):
+			// a method with a pointer receiver that changes the receiver: it yields the new receiver
+			sig.shape, sig.coqResT = "recv", recordTable[fd.recv].coqType
 		case len(written) > 0:
 			if len(written) != 1 || !(nres == 0 || (nres == 1 && sig.results[0].k == kBytes)) {
 				p.bad(fd.decl, "a function that writes into a slice parameter must have one such parameter and return nothing or that slice")
@@ -590,6 +720,9 @@ func (tr *translator) translate(fd *funcDecl, mode string) *fsig {
 			if sig.shape == "mut" && len(sig.results) == 0 {
 				return f.retMut(fd.decl)
 			}
+			if sig.shape == "recv" {
+				return f.retRecv()
+			}
 			p.bad(fd.decl, "control reaches the end of the function")
 			return nil
 		})
@@ -599,6 +732,54 @@ func (tr *translator) translate(fd *funcDecl, mode string) *fsig {
 	}()
 	tr.finish(sig, fd, body)
 	return sig
+}
+
+// renameLeaves gives the leaves of a symbolic struct the parameter names prefix+field.
+func (tr *translator) renameLeaves(v *val, prefix string) {
+	for k, fv := range v.fields {
+		if fv.fields != nil {
+			tr.renameLeaves(fv, prefix)
+			continue
+		}
+		if fv.term != "" {
+			fv.term = prefix + k
+		}
+		if fv.nilTerm != "" {
+			fv.nilTerm = prefix + k + "_isnil"
+		}
+	}
+}
+
+// mutatesReceiver: does the body assign to (a field / an element of a field of) the receiver?
+func mutatesReceiver(fd *funcDecl, rname string) bool {
+	found := false
+	ast.Inspect(fd.decl.Body, func(n ast.Node) bool {
+		a, ok := n.(*ast.AssignStmt)
+		if !ok || a.Tok == token.DEFINE {
+			return true
+		}
+		for _, l := range a.Lhs {
+			e := l
+			for {
+				switch x := e.(type) {
+				case *ast.SelectorExpr:
+					e = x.X
+					continue
+				case *ast.IndexExpr:
+					e = x.X
+					continue
+				}
+				break
+			}
+			if id, ok := e.(*ast.Ident); ok && id.Name == rname {
+				if _, plain := l.(*ast.Ident); !plain {
+					found = true
+				}
+			}
+		}
+		return true
+	})
+	return found
 }
 
 // storedInSliceField: is the parameter the value of a struct field that the model keeps as a slice?
